@@ -102,7 +102,7 @@ def endpoint():
 # ------------------------------------------------------------------ generation
 def gen_case(rng):
     cfg = dict(method=rng.choice(["GET", "POST", "POST_FORM"]), fmt=rng.choice(["xml", "json"]), autocommit=rng.random() < 0.5, dirty=rng.random() < 0.4,
-               named=rng.random() < 0.7)
+               named=rng.random() < 0.7, extra=rng.random() < 0.4)
     pool = [(rng.choice(S), rng.choice(P), rng.choice(O)) for _ in range(rng.choice([3, 4, 6]))]
     steps = []
     for _ in range(rng.choice([5, 8, 12, 20, 30])):
@@ -150,7 +150,9 @@ def run_case(case, st=None):
         backing.add(tuple(dec(x) for x in t) + (GRAPHS[1],))
     other = {tuple(lkey(dec(x)) for x in t) for t in case["other"]}
     carve = not case.get("no_carve")
-    store = SPARQLUpdateStore(url, url, method=cfg["method"], returnFormat=cfg["fmt"], autocommit=cfg["autocommit"], dirty_reads=cfg["dirty"])
+    # connector keyword arguments of the caller (an extra request parameter and header the endpoint ignores) must stay per store, not per request
+    extra = dict(params={"api-key": "k"}, headers={"X-Client": "rv"}) if cfg.get("extra") else {}
+    store = SPARQLUpdateStore(url, url, method=cfg["method"], returnFormat=cfg["fmt"], autocommit=cfg["autocommit"], dirty_reads=cfg["dirty"], **extra)
     g = Graph(store, identifier=gname) if gname is not None else Graph(store, identifier=DATASET_DEFAULT_GRAPH_ID)
     committed = {}     # tkey -> triple : what the endpoint's graph must hold
     pending = []       # queued (op, arg) when autocommit is off
